@@ -368,7 +368,10 @@ class Scan(Generic[Carry, Y], GenerativeFunction[tuple[Carry, Y]]):
         idx_array = jnp.arange(trace.scan_length)
         slice_scanned_out = Diff.tree_primal(scanned_retdiff)
         new_scanned_out: Y = jtu.tree_map(
-            lambda v1, v2: jnp.where(idx_array == idx, v1, v2),
+            # select along the time axis, whatever the shape of one step's output
+            lambda v1, v2: jnp.where(
+                (idx_array == idx).reshape((-1,) + (1,) * (jnp.ndim(v2) - 1)), v1, v2
+            ),
             slice_scanned_out,
             old_scanned_out,
         )
